@@ -145,6 +145,15 @@ def check_first_vel(case):
     if not abs(c - want) <= 1e-12 * abs(want) + 1e-15 * d:
         raise Fail("CO2-aware first velocity correction is not (reference index / ambient group index - 1) x distance",
                    expected=want, observed={"corrn": c, "rh": rh, "e_hPa": e, "n_g": ng})
+    # the same request with every argument by position, in the order of the signature (the wet-bulb slot left at None), and with
+    # the two keywords the other way round
+    for form, cpos in (("all arguments by position", sv.first_vel_corrn(d, params, T, P, rh, None, co2, lam)),
+                       ("keywords in the other order", sv.first_vel_corrn(d, params, T, P, rh, wavelength=lam, CO2_ppm=co2)),
+                       ("every argument by keyword", sv.first_vel_corrn(dist=d, first_vel_param=params, temp=T, pressure=P, rel_humidity=rh,
+                                                                          CO2_ppm=co2, wavelength=lam))):
+        if not abs(cpos - c) <= 1e-12 * abs(c) + 1e-15 * d:
+            raise Fail("CO2-aware first velocity correction differs when the same request is written with %s" % form,
+                       expected=c, observed=cpos, bucket="first_vel_corrn call form")
     # proportional to the measured distance
     k = case["kd"]
     c2 = sv.first_vel_corrn(d * k, params, T, P, rh, CO2_ppm=co2, wavelength=lam)
